@@ -403,13 +403,9 @@ def checkSteps (xs : List V) (tail : Option Err) (pipes : List (List Kind)) :
 
 /-- builder purity, on observations of the implementation alone: the re-used prefix spec
     has the same repr and the same behaviour before and after specs were derived from it,
-    and a spec derived from the re-used prefix behaves like the same chain built afresh.
-    `evaled` (only for chains whose arguments are all literals): the spec obtained by
-    evaluating `repr` of the derived spec — the repr names every stage in chaining order
-    with all the arguments it was given — behaves like the derived spec. -/
-def checkReuse (reprSame : Bool) (before after reused fresh : TakeObs) (evaled : Option TakeObs) : Bool :=
-  reprSame && before == after && reused == fresh &&
-    (match evaled with | some t => t == reused | none => true)
+    and a spec derived from the re-used prefix behaves like the same chain built afresh -/
+def checkReuse (reprSame : Bool) (before after reused fresh : TakeObs) : Bool :=
+  reprSame && before == after && reused == fresh
 
 /-! ### well-formedness of the extracted facts -/
 
